@@ -13,7 +13,7 @@ import KyupyVerif.Gen.Tables
 Answer: `<pippi_s_locs>;<poppo_s_locs>;<ppio_s_locs>;<s0>;<s1>` after `cycleKA k` (Model/Cycle.lean), rows in the input format.
 
 `cyclecert <order> <c_locs csv> <dump...>` — the decidable side conditions of C01 `cycle_on_memory` (on the real table) and
-`cycle_strip_irrelevant` (on the real order): `outs=<stateOutsB> zero=<zeroCapB> cap=<capDriversB>`. -/
+`cycle_strip_irrelevant` (on the real order): `zero=<zeroCapB> cap=<capDriversB>`. -/
 namespace KV.Drv.Cycle
 open KV KV.Sig KV.Cycle
 
@@ -104,7 +104,7 @@ def handle (cmd : String) (args : List String) : Option String :=
     let net := parseNet (" ".intercalate dump)
     let p : MapIn := { net := net, strip := false, ops := [], starts := [], caps := #[], cLen := 0, capsMin := 1,
                        locs := ((locs.splitOn ",").filter (· ≠ "") |>.map String.toInt!).toArray }
-    some s!"outs={if stateOutsB net then 1 else 0} zero={if zeroCapB p then 1 else 0} cap={if capDriversB net (parseNats (if order == "~" then "" else order)) then 1 else 0}"
+    some s!"zero={if zeroCapB p then 1 else 0} cap={if capDriversB net (parseNats (if order == "~" then "" else order)) then 1 else 0}"
   | _, _ => none
 
 end KV.Drv.Cycle
